@@ -1,7 +1,7 @@
 (* C11 — Cell expressions denote the Boolean function MCNP assigns to them.
    Only restatements; proofs are in C11/Proofs.v. Spec vocabulary: C11/Spec.v. *)
 From Coq Require Import List NArith ZArith Bool String Ascii Lia.
-From T4V Require Import Base.Str C11.Model C11.Spec C11.Proofs C11.LexProofs C11.LexSound C11.Layout C11.Pipeline C11.Sound C11.Complete C11.Loop C11.Card.
+From T4V Require Import Base.Str C11.Model C11.Spec C11.Proofs C11.LexProofs C11.LexSound C11.Layout C11.Pipeline C11.Sound C11.Complete C11.Loop C11.Card C11.Handover C11.EndToEnd.
 Import ListNotations.
 Close Scope string_scope.
 Open Scope list_scope.
@@ -41,10 +41,31 @@ Theorem C11_eliminate_all_den : forall (tbl : table) rk, table_ok (lookup tbl) r
   exists F tbl', (forall f, F <= f -> eliminate_all f tbl = Ok tbl') /\
     forall n c, lookup tbl n = Some c ->
       exists c', lookup tbl' n = Some c' /\ a_plain (c_geom c') = true /\
+        a_nonzero (c_geom c') = true /\
         forall sg cd, cells_meaning (lookup tbl) sg cd ->
           aden cd sg (c_geom c') = aden cd sg (c_geom c).
 Proof. exact eliminate_all_den. Qed.
 Print Assumptions C11_eliminate_all_den.
+
+(* ---- hand-over to C01 (pot_flag and after) ----
+   C01's model starts from trees of ('*', l, r) / (':', l, r) nodes with
+   Surface leaves of non-zero number.  In this model: [a_plain t] = only
+   AAnd / AOr nodes over ASurf leaves (no '^', no raw list), [a_nonzero t] = all
+   surface numbers non-zero; C11_eliminate_all_den above gives both, with the
+   meaning preserved, for every cell of every well-founded table.
+   UNCONDITIONALLY (any table: cyclic, dangling, lattice cells; any fuel):
+   whenever complement elimination returns a tree, no '^' node is left in it
+   ([no_compl]: AAnd / AOr / the raw '*' list of a lattice complement, over
+   ASurf leaves) -- for one call and for the whole in-place loop *)
+Theorem C11_handover_no_complement : forall cells f a t,
+  pot_complement f cells a = Ok t -> no_compl t = true.
+Proof. exact pot_complement_no_compl. Qed.
+Print Assumptions C11_handover_no_complement.
+
+Theorem C11_handover_loop : forall f (tbl tbl' : table), eliminate_all f tbl = Ok tbl' ->
+  forall n c', lookup tbl' n = Some c' -> no_compl (c_geom c') = true.
+Proof. exact eliminate_all_no_compl. Qed.
+Print Assumptions C11_handover_loop.
 
 Theorem C11_pot_complement_lattice_empty : forall cells n c z sub f,
   cells n = Some c -> c_lattice c = true -> first_surface (c_geom c) = Some (ASurf z sub) -> z <> 0%Z ->
@@ -187,14 +208,17 @@ Print Assumptions C11_get_ast_accepts_iff.
 (* ---- the cell card (MIP/mip/cellcard.py split) ----
    a card  name blanks mat [blanks rho] blanks E options : name and material
    number are digit strings ("0"... = void, then no density), the density is
-   made of digits, signs and '.', E consists of expression characters and starts
-   with a non-blank, the options (if any) start with a letter or '*' right after
+   any token without blanks and parentheses that does not start with a letter
+   or '*' ("-2.7", "1.0E-3"), E consists of expression characters and starts
+   with a non-blank and is separated from the material part by g3 blanks
+   ([sep_ok]: g3 may be 0 when an opening parenthesis follows a density,
+   "3 -2.7(1:2)"), the options (if any) start with a letter or '*' right after
    a ')' or a blank.  split() returns E with its leading blanks as the geometry
    and the options untouched *)
 Theorem C11_split_card : forall name g1 mat rho g3 E opts,
   digits_ok name = true -> mat_ok mat rho ->
-  str_forall expr_char E = true -> head_sat nonblank E = true -> opts_ok E opts ->
-  split_card (card_body name g1 mat rho g3 E ++ opts)%string = Ok ((blanks (S g3) ++ E)%string, opts).
+  str_forall expr_char E = true -> head_sat nonblank E = true -> sep_ok rho g3 E -> opts_ok E opts ->
+  split_card (card_body name g1 mat rho g3 E ++ opts)%string = Ok ((blanks g3 ++ E)%string, opts).
 Proof. exact split_card_wellformed. Qed.
 Print Assumptions C11_split_card.
 
@@ -205,11 +229,59 @@ Theorem C11_card_geometry : forall name g1 mat rho g3 (e : mexpr) w r trail opts
   let ws := (0, w) :: r in
   digits_ok name = true -> mat_ok mat rho ->
   wf_written ws = true -> tokens_written ws = toks 0 e ->
-  opts_ok (render ws trail) opts ->
+  sep_ok rho g3 (render ws trail) -> opts_ok (render ws trail) opts ->
   exists geom, split_card (card_body name g1 mat rho g3 (render ws trail) ++ opts)%string = Ok (geom, opts) /\
                get_ast geom = psem e.
 Proof. exact card_geometry. Qed.
 Print Assumptions C11_card_geometry.
+
+(* ---- the whole property, from the text of the cell cards to the trees
+   handed to pot_flag (model level) ----
+   a deck = a list of cards, each written in any way the format allows
+   ([card_ok]: name / material / density tokens, any layout of an admissible
+   expression, options) with well-founded complements.  Then every card is
+   split and parsed ([build_table] = split_card + get_ast per card), the
+   complement loop terminates, and every cell ends with a tree of '*' / ':'
+   nodes over non-zero Surface leaves which, for EVERY sense assignment, holds
+   exactly where MCNP says the cell's expression holds *)
+Theorem C11_deck_end_to_end : forall (cs : list card) rk,
+  Forall card_ok cs -> table_ranked (deck_mc cs) rk ->
+  exists tbl F tbl',
+    build_table (deck_cards cs) = Ok tbl /\
+    (forall f, F <= f -> eliminate_all f tbl = Ok tbl') /\
+    forall n e, deck_mc cs n = Some e ->
+      exists c', lookup tbl' n = Some c' /\ a_plain (c_geom c') = true /\
+        a_nonzero (c_geom c') = true /\
+        forall sg cd, mcnp_meaning (deck_mc cs) sg cd -> aden cd sg (c_geom c') = mden cd sg e.
+Proof. exact deck_end_to_end. Qed.
+Print Assumptions C11_deck_end_to_end.
+
+(* non-vacuity: the deck  "1 0 -1 2 imp:n=1" / "2 3 -2.7 #1:3" *)
+Example C11_example_deck :
+  let c1 := mkCard 1 "1"%string 0 "0"%string None 1 (MAnd (MLit (-1) None) (MLit 2 None))
+              (WLit true false "1"%string None) [(1, WLit false false "2"%string None)] 1 "imp:n=1"%string in
+  let c2 := mkCard 2 "2"%string 0 "3"%string (Some (0, "-2.7"%string)) 1 (MOr (MNotCell 1) (MLit 3 None))
+              (WHashN 0 "1"%string) [(0, WColon); (0, WLit false false "3"%string None)] 0 ""%string in
+  Forall card_ok [c1; c2] /\ table_ranked (deck_mc [c1; c2]) N.to_nat /\
+  deck_cards [c1; c2] = [(1%N, "1 0 -1 2 imp:n=1"%string); (2%N, "2 3 -2.7 #1:3"%string)] /\
+  (match build_table (deck_cards [c1; c2]) with
+   | Ok tbl => option_map (map (fun p => (fst p, c_geom (snd p)))) (match eliminate_all 10 tbl with Ok t => Some t | Err _ => None end)
+   | Err _ => None end) =
+  Some [(1%N, AAnd (ASurf (-1) None) (ASurf 2 None));
+        (2%N, AOr (AOr (ASurf 1 None) (ASurf (-2) None)) (ASurf 3 None))].
+Proof.
+  cbv zeta. split; [|split; [|split]].
+  - constructor; [|constructor; [|constructor]]; unfold card_ok, mat_ok, sep_ok; cbn.
+    + repeat split; try reflexivity; try (left; discriminate).
+      right. exists "-1 2"%string, " "%char, "i"%char, "mp:n=1"%string. repeat split; reflexivity.
+    + repeat split; try reflexivity; try discriminate; try (left; discriminate). left. reflexivity.
+  - intros n e H. unfold deck_mc in H. cbn [find k_id] in H.
+    destruct (N.eqb 1 n) eqn:E1; [injection H as <-; cbn; auto|].
+    destruct (N.eqb 2 n) eqn:E2; [|discriminate]. injection H as <-. apply N.eqb_eq in E2. subst n.
+    cbn. repeat split; try (eexists; reflexivity); lia.
+  - vm_compute. reflexivity.
+  - vm_compute. reflexivity.
+Qed.
 
 (* [admissible] excludes exactly one class of well-formed MCNP expressions
    that the code rejects (genuine defect, known finding): *)
@@ -262,12 +334,26 @@ Example C11_example_card :
   let ws := [(0, WHashN 0 "5"); (1, WLP); (0, WLit false false "1" None); (0, WColon);
              (0, WLit true false "2" None); (0, WRP)]%string in
   mat_ok "3"%string (Some (0, "-2.7"%string)) /\ opts_ok (render ws 0) "imp:n=1 u=2"%string /\
-  (card_body "12" 0 "3" (Some (0, "-2.7")) 0 (render ws 0) ++ "imp:n=1 u=2" = "12 3 -2.7 #5 (1:-2)imp:n=1 u=2")%string /\
+  (card_body "12" 0 "3" (Some (0, "-2.7")) 1 (render ws 0) ++ "imp:n=1 u=2" = "12 3 -2.7 #5 (1:-2)imp:n=1 u=2")%string /\
   split_card "12 3 -2.7 #5 (1:-2)imp:n=1 u=2"%string = Ok (" #5 (1:-2)"%string, "imp:n=1 u=2"%string).
 Proof.
   cbv zeta. split; [|split; [|split]].
-  - split; [reflexivity|]. split; [reflexivity|]. split; [reflexivity|discriminate].
+  - split; [reflexivity|]. split; [reflexivity|]. split; [reflexivity|]. split; [discriminate|reflexivity].
   - right. exists "#5 (1:-2"%string, ")"%char, "i"%char, "mp:n=1 u=2"%string. repeat split; reflexivity.
+  - reflexivity.
+  - vm_compute. reflexivity.
+Qed.
+
+(* the density (with an exponent letter) glued to an opening parenthesis *)
+Example C11_example_card_glued :
+  mat_ok "3"%string (Some (0, "2.7E-3"%string)) /\
+  sep_ok (Some (0, "2.7E-3"%string)) 0 "(1:-2) 3"%string /\
+  (card_body "12" 0 "3" (Some (0, "2.7E-3")) 0 "(1:-2) 3" ++ "u=2" = "12 3 2.7E-3(1:-2) 3u=2")%string /\
+  split_card "12 3 2.7E-3(1:-2) 3 u=2"%string = Ok ("(1:-2) 3 "%string, "u=2"%string).
+Proof.
+  split; [|split; [|split]].
+  - split; [reflexivity|]. split; [reflexivity|]. split; [reflexivity|]. split; [discriminate|reflexivity].
+  - right. split; [discriminate|reflexivity].
   - reflexivity.
   - vm_compute. reflexivity.
 Qed.
